@@ -966,7 +966,10 @@ type runner struct {
 	wedged bool
 }
 
-const opTimeout = 20 * time.Second
+// opTimeout bounds waits for something the unchanged database always does (a leaked writer lock would block for ever);
+// generous so that a starved machine cannot turn slowness into "timeout" / db-unusable; after 3 wedged runners no further
+// case is executed, so a failing run pays it a bounded number of times.
+const opTimeout = 30 * time.Second
 
 // wedges counts runners whose database stopped accepting transactions (a leaked writer lock). After a few, later
 // cases are not executed any more (every wait would run into its time limit); the violation is already recorded.
@@ -1154,7 +1157,7 @@ func (r *runner) probe() bool {
 	select {
 	case <-ch:
 		return true
-	case <-time.After(5 * time.Second):
+	case <-time.After(opTimeout):
 		r.wedge()
 		return false
 	}
